@@ -380,6 +380,7 @@ def _case_value(prog, ent, case_name, case):
     summ = ev.summary(ent["function"], self_value=self_value, args=argv)
     _case_value.incomplete = list(ev.incomplete)
     _case_value.unk_deps = dict(ev.unk_deps)
+    _case_value.unfollowed = set(ev.unfollowed_local)
     if "ret" in ent:
         r = summ["ret"] if summ else None
         if ent["ret"] == "all":
@@ -445,7 +446,10 @@ def check_sites(prog, chk, pid):
             if _case_value.conditional:
                 conditional.append(cname)
             deps_by_case[cname] = _case_value.unk_deps
-            if _case_value.incomplete or not _definite(got[cname]):
+            unf = [f_ for f_ in sorted(getattr(_case_value, "unfollowed", ())) if got[cname] is not None and re.search(r"(?<![A-Za-z0-9_])" + re.escape(f_) + r"\(", A.canon(got[cname]))]
+            if unf:
+                partial[cname] = [f"the value rests on {unf[0]}(), a function of the crate whose body the evaluator could not summarise"]
+            elif _case_value.incomplete or not _definite(got[cname]):
                 partial[cname] = _case_value.incomplete[:1] or ["part of the value is unknown to the evaluator"]
             want[cname] = case["want"] if isinstance(case, dict) else case
         match_modulo.untraced = []
